@@ -61,4 +61,22 @@ var targets = []target{
 		Effects: map[string]string{"c.tracker.TrackNames": "GoLib.trackNames"},
 		Doc:     "ItemsAdd() is a Go map: `hostsAdd` is its content in iteration order;",
 	},
+	{
+		Prop: "C08", File: "pkg/controller/services/cache.go", Recv: "c", Func: "IsValidIngressClass", Lean: "isValidIngressClass",
+		Sig:    "(c : GoLib.CacheView) (ingressClass : Option GoLib.IngressClassView) : Bool",
+		Syms:   map[string]string{"ingressClass.Spec.Controller": "(GoLib.derefClass ingressClass).controller"},
+	},
+	{
+		Prop: "C08", File: "pkg/controller/services/cache.go", Recv: "c", Func: "IsValidIngress", Lean: "isValidIngress",
+		Sig:  "(c : GoLib.CacheView) (ing : GoLib.IngressView) : Bool",
+		Skip: []string{"c.log.Error", "c.log.Info"},
+		Syms: map[string]string{
+			"ing.Annotations[\"kubernetes.io/ingress.class\"]": "(ing).annClass",
+			"ing.Spec.IngressClassName":                        "(ing).className",
+			"*className":                                       "(GoLib.deref className)",
+			"c.GetIngressClass":                                "(c).getIngressClass",
+			"c.IsValidIngressClass":                            "isValidIngressClass c",
+		},
+		Doc: "the cache read GetIngressClass is the field `getIngressClass` of the view (result: object pointer, error);",
+	},
 }
